@@ -6,6 +6,7 @@ from typing import (
     TYPE_CHECKING,
     Any,
     Dict,
+    FrozenSet,
     Iterable,
     List,
     Optional,
@@ -129,18 +130,27 @@ def resolve1(x: object, default: object = None) -> Any:
     return x
 
 
-def resolve_all(x: object, default: object = None) -> Any:
+def resolve_all(
+    x: object,
+    default: object = None,
+    _path: FrozenSet[int] = frozenset(),
+) -> Any:
     """Recursively resolves the given object and all the internals.
 
     Make sure there is no indirect reference within the nested object.
     This procedure might be slow.
     """
+    if isinstance(x, PDFObjRef):
+        if x.objid in _path:
+            # the object contains a reference to itself
+            return default
+        _path = _path | {x.objid}
     x = resolve1(x, default=default)
     if isinstance(x, list):
-        x = [resolve_all(v, default=default) for v in x]
+        x = [resolve_all(v, default=default, _path=_path) for v in x]
     elif isinstance(x, dict):
         for k, v in x.items():
-            x[k] = resolve_all(v, default=default)
+            x[k] = resolve_all(v, default=default, _path=_path)
     return x
 
 
